@@ -31,7 +31,7 @@ pub struct LimitsCfg {
 pub fn gen_plan(seed: u64) -> Plan {
     let mut r = Rng::stream(seed, 1);
     let n = r.range(3, 14) as usize;
-    let misuse = if r.chance(2, 5) { 1 + r.below(6) as u8 } else { 0 };
+    let misuse = if r.chance(2, 5) { 1 + r.below(8) as u8 } else { 0 };
     let n_actions = r.range(6, 26) as usize;
     let mut acts = vec![];
     // graphs whose heights concentrate around n
@@ -369,6 +369,51 @@ pub fn run_on_this_thread(plan: &Plan, keep_trace: bool) -> RunOutput {
                             st.stabilise();
                             drop(o);
                         }
+                        7 => {
+                            // two binds that end up returning each other directly, reached in steps
+                            let s1 = st.var(false);
+                            let s2 = st.var(false);
+                            let c0 = st.constant(0i64);
+                            let (h1, h2) = (holder.clone(), Rc::new(RefCell::new(None::<Incr<i64>>)));
+                            let (c1, c2) = (c0.clone(), c0.clone());
+                            let h2b = h2.clone();
+                            let b1 = s1.bind(move |s: &bool| if *s { h2b.borrow().clone().unwrap() } else { c1.clone() });
+                            let b2 = s2.bind(move |s: &bool| if *s { h1.borrow().clone().unwrap() } else { c2.clone() });
+                            *holder.borrow_mut() = Some(b1.clone());
+                            *h2.borrow_mut() = Some(b2.clone());
+                            let o = b1.observe();
+                            st.stabilise();
+                            s1.set(true);
+                            st.stabilise();
+                            s2.set(true);
+                            let r = catch_unwind(AssertUnwindSafe(|| st.stabilise()));
+                            drop(o);
+                            *h2.borrow_mut() = None;
+                            if let Err(p) = r {
+                                std::panic::resume_unwind(p);
+                            }
+                        }
+                        8 => {
+                            // a node of another state that has already been dropped (the node is
+                            // kept alive by the closure)
+                            let f = {
+                                let gone = IncrState::new();
+                                gone.constant(9i64)
+                            };
+                            let b = base.bind(move |_| f.clone());
+                            let o = b.observe();
+                            let r = catch_unwind(AssertUnwindSafe(|| st.stabilise()));
+                            let read = o.try_get_value();
+                            drop(o);
+                            match r {
+                                Err(p) => std::panic::resume_unwind(p),
+                                Ok(()) => {
+                                    if read.is_ok() {
+                                        // reported below as misuse-accepted
+                                    }
+                                }
+                            }
+                        }
                         6 => {
                             // a cycle closed through the "created in the right-hand side of" relation:
                             // b0 = switch.bind(|s| if s { node leaked from b's closure } else { constant })
@@ -458,7 +503,7 @@ pub fn run_on_this_thread(plan: &Plan, keep_trace: bool) -> RunOutput {
                 if nested_ran.get() > 0 {
                     bad!("nested-stabilise-computed", "a stabilise called from inside a {} ran {} node function(s) before it was refused", if cfg.misuse == 4 { "node function" } else { "handler" }, nested_ran.get());
                 }
-                *out.faults.entry(["", "misuse_cycle", "misuse_cycle", "misuse_cross_state", "misuse_nested_stabilise", "misuse_nested_stabilise", "misuse_cycle_through_scope"][(cfg.misuse as usize).min(6)].into()).or_insert(0) += 1;
+                *out.faults.entry(["", "misuse_cycle", "misuse_cycle", "misuse_cross_state", "misuse_nested_stabilise", "misuse_nested_stabilise", "misuse_cycle_through_scope", "misuse_cycle", "misuse_cross_state"][(cfg.misuse as usize).min(8)].into()).or_insert(0) += 1;
                 outcome = Some(step);
                 drop(foreign);
                 drop(other_state);
@@ -479,7 +524,7 @@ pub fn run_on_this_thread(plan: &Plan, keep_trace: bool) -> RunOutput {
                 if msg.contains("watchdog") {
                     bad!("misuse-loops", "the misuse made the engine loop until the callback budget ran out instead of panicking");
                 }
-                if matches!(cfg.misuse, 1 | 2 | 6) && !msg.to_lowercase().contains("cycl") {
+                if matches!(cfg.misuse, 1 | 2 | 6 | 7) && !msg.to_lowercase().contains("cycl") {
                     bad!("cycle-panic-without-diagnostic", "closing a dependency cycle panicked without naming the cause: {}", msg);
                 }
             }
